@@ -181,3 +181,18 @@ reg("C05",
     rule="one evaluation = one (transport, phase) socket set on which a random sequence of public calls is made with the wait monitor armed, or one connection driven through resolving/connecting/handshaking by finish calls; "
          "distinct = distinct (transport, phase, API) triples in which a call was watched; all cases that reached their phase are non-trivial",
     assumptions=["only calls made through the PLT are seen (libc, c-ares entry points); OpenSSL and c-ares internals calling each other directly are not"])
+
+reg("C06",
+    title="terminal conditions are reported faithfully and stick",
+    level="fault_enumeration",
+    technique="fault enumeration with a terminal-state tracker: errno substituted at the n-th recv/send/SO_ERROR below XCM and OpenSSL (errno x index x first observing call), an in-process cutting proxy severing (FIN) or resetting (RST) the stream after exactly n bytes (every offset of handshake, headers, payloads), orderly closes and failing establishments; prefix oracle on deliveries; ASan+UBSan",
+    level_text="Enumerated over (transport x {recv,send} x index x {ECONNRESET, ETIMEDOUT, EHOSTUNREACH, ENETUNREACH, ECONNREFUSED, EPIPE} x first observer in {send, receive, finish} x frame pending or not) for injected errnos, over byte offsets of the real wire stream (TLS handshake flights included) x {FIN, RST} x direction for peer death through a cutting proxy between two XCM endpoints, plus orderly closes on all eight transports and refused/unreachable/timed-out establishments. On every endpoint a tracker takes the first terminal report and then demands: no success ever again; 0 from receive and EPIPE from send after an observed close; on TCP-based transports the same errno from every later send, receive and finish; the call during which the injected error occurred reports it; deliveries are always a prefix of what the peer's sends accepted (no partial message).",
+    level_note="Quick samples the product, thorough walks the offsets densely (stride 7919 mod stream length over the case index). The kernel's production of the errno is replaced by substitution at the call boundary; XCM's reaction is what is observed.",
+    harness=STATES + ["c06.c"],
+    stages=[dict(variant="asan", cases={"quick": 2400, "thorough": 60000}, timeout={"quick": 900, "thorough": 3400})],
+    floors={"quick": {"faults_fired": 500, "cuts_made": 500, "cuts_during_establishment": 50, "cuts_after_establishment": 100, "orderly_closes_verified": 150, "connect_failures_observed": 100,
+                      "terminal_probe_calls": 15000, "distinct_nontrivial": 150},
+            "thorough": {"faults_fired": 15000, "cuts_made": 15000, "cuts_during_establishment": 1500, "orderly_closes_verified": 4000, "distinct_nontrivial": 300}},
+    rule="one evaluation = one fault / cut / orderly-close / failing-establishment scenario; distinct = distinct (kind, transport, fault call, errno, discovering call) or (cut, transport, FIN/RST, direction, phase, terminal kinds) tuples that actually fired; a case whose injection point was not reached is counted under faults_not_reached/cut_not_reached",
+    assumptions=["EPIPE met while writing is the peer's close: the terminal state is then 'closed' (receive 0, send EPIPE)",
+                 "for non-orderly death any of 0/ECONNRESET/EPIPE/EPROTO is accepted as the terminal value; stickiness and consistency are demanded"])
